@@ -21,6 +21,7 @@ EXPLANATION = (
     "definition (full linear convolution: pad to a good size >= n1+n2-1, multiply spectra, invert to that size, keep "
     "[:n1+n2-1]), correlate is convolution with the reversed conjugate, form_mspec is the modulus of each bin. Not decided: "
     "Parseval, equality with the DFT sum, rounding error - numeric clauses outside static analysis."
+    ' Since F53: a spectrum read from a headered file records the transform length 2*(nbins-1), not the float count that the file size gives (R2).'
 )
 K = "sigpyproc.core.kernels"
 
